@@ -754,16 +754,30 @@ def aggregate(ctx, facts):
     sat = [(bb, t) for bb, t in b.calls() if (F.callee(t)[0] or "").endswith("addition_sequential::integer_sat_add")]
     push = [(bb, t) for bb, t in b.calls() if (F.callee(t)[0] or "").endswith("BitDecomposed::<S>::push")]
     guard = None
+    guard_operand = None
     for tgt, f in flow.edge_guards(b):
         op, l, r = f
         if op in ("Lt", "Ge", "Le", "Gt") and l[0] == "call" and l[1].endswith("BitDecomposed::<S>::len") and r is not None and "::BITS" in str(r):
             guard = guard or {}
             guard[op] = tgt
+            guard_operand = l[2][0]
     if len(add) != 1 or len(sat) != 1 or guard is None:
         ctx.missing("WIRE-aggregate", f"integer_add / integer_sat_add / width test (found {len(add)}/{len(sat)}/{'yes' if guard else 'no'})")
         return
     ok = "Lt" in guard and "Ge" in guard and flow.dominates(dom, guard["Lt"], add[0][0]) and flow.dominates(dom, guard["Ge"], sat[0][0])
     ctx.ob("WIRE-aggregate", "grow-while-narrower-than-output", ok, "len < OV::BITS => add with carry growth; otherwise saturating add" if ok else "the switch between carry-growing and saturating addition is not `len < OV::BITS` (with `<=` the sum grows one bit past the output width and the final resize drops the overflow instead of saturating; with a smaller bound the sum saturates too early)", site_of(b, add[0][0]))
+    # the width that is tested must be the width of the sum: integer_add / integer_sat_add return as many bits as their
+    # FIRST operand has (the second one is zero-extended), and after an odd row was passed through the second operand
+    # of a pair can be narrower than the first
+    def strip(e):
+        while e[0] == "call" and re.search(r"(Deref::deref|Clone::clone|Borrow::borrow|AsRef::as_ref)$", e[1]):
+            e = e[2][0]
+        return e
+    # the two pops have the same expression, so compare the locals that hold them
+    lens = [(bb, t) for bb, t in b.calls() if (F.callee(t)[0] or "").endswith("BitDecomposed::<S>::len") and any(flow.dominates(dom, bb, g) for g in guard.values())]
+    gl = malsec._base_locals(b, lens[0][1]["args"][0]) if len(lens) == 1 else set()
+    okx = bool(gl) and all(gl == malsec._base_locals(b, ct["args"][2]) for _, ct in (add[0], sat[0])) and all(gl != malsec._base_locals(b, ct["args"][3]) for _, ct in (add[0], sat[0]))
+    ctx.ob("WIRE-aggregate", "width-test-on-first-operand", okx, "the tested length is that of the first operand (= the width of the sum)" if okx else "the length compared with OV::BITS is not that of the additions' first operand: once an odd row was passed through, a full-width sum paired with a narrower row grows past the output width instead of saturating", site_of(b, add[0][0]))
     okp = False
     if push:
         pe = str(flow.expr_of(b, push[0][1]["args"][1], max_depth=40))
